@@ -596,12 +596,29 @@ econf_err econf_writeFile(econf_file *key_file, const char *save_to_dir,
     return ECONF_WRITEERROR;
   }
 
+  // Entries without a group have to be written first. Behind a group they
+  // would be read back as members of that group.
+  size_t *order = malloc((key_file->length + 1) * sizeof(size_t));
+  if (order == NULL) {
+    free(save_to);
+    fclose(kf);
+    return ECONF_NOMEM;
+  }
+  size_t count = 0;
+  for (size_t i = 0; i < key_file->length; i++)
+    if (!strcmp(key_file->file_entry[i].group, KEY_FILE_NULL_VALUE))
+      order[count++] = i;
+  for (size_t i = 0; i < key_file->length; i++)
+    if (strcmp(key_file->file_entry[i].group, KEY_FILE_NULL_VALUE))
+      order[count++] = i;
+
   // Write to file
-  for (size_t i = 0; i < key_file->length; i++) {
+  for (size_t n = 0; n < key_file->length; n++) {
+    size_t i = order[n];
     // Writing group
-    if (!i || strcmp(key_file->file_entry[i - 1].group,
+    if (!n || strcmp(key_file->file_entry[order[n - 1]].group,
                      key_file->file_entry[i].group)) {
-      if (i)
+      if (n)
         fprintf(kf, "\n");
       if (strcmp(key_file->file_entry[i].group, KEY_FILE_NULL_VALUE)) {
 	char *group = addbrackets(key_file->file_entry[i].group);
@@ -654,6 +671,7 @@ econf_err econf_writeFile(econf_file *key_file, const char *save_to_dir,
   }
 
   // Clean up
+  free(order);
   free(save_to);
   fclose(kf);
   return ECONF_SUCCESS;
